@@ -89,17 +89,25 @@ def keyRowsBy (m : MType) (fields : List String) : Option MType :=
 def filter (m : MType) : MType := m
 
 /-- `union_cols(other)` (inner or outer row join, right row fields kept): same entry type, column type and column key names,
-same row key types; no name shared between the value fields.  The row type the ENGINE computes: left key fields, left value
-fields, right value fields. -/
-def unionCols (l r : MType) : Option MType :=
+same row key types.  The front end first renames (`deduplicate`, as `Table.join` does) every non-key row field of the right
+dataset whose name is a field name of the left one — ANY field: a row key, a global…  (/repo before the repair looked at the left
+row-VALUE fields only; a right field named like the left row key then overwrote the key's type.)  The row type the ENGINE
+computes: left key fields, left value fields, right value fields — a struct concatenation that is fatal on a duplicate name;
+`unionColsStrict` is that rule, `unionCols` the reported type. -/
+def unionColsWith (concat : FieldList → FieldList → Option FieldList) (l r : MType) : Option MType :=
   let keyT (m : MType) := m.rowKey.filterMap (fun k => lookupF m.row k)
   let valueF (m : MType) := m.row.filter (fun p => !m.rowKey.contains p.1)
   if l.entry != r.entry || l.col != r.col || l.colKey != r.colKey || keyT l != keyT r
       || (keyT l).length != l.rowKey.length then none
-  else if (names (valueF r)).any (fun n => (names (valueF l)).contains n || l.rowKey.contains n) then none
   else
-    let keyFs := l.rowKey.filterMap (fun k => (lookupF l.row k).map (fun ty => (k, ty)))
-    some { l with row := keyFs ++ valueF l ++ valueF r }
+    match dedupAll (names l.globals ++ names l.col ++ names l.row ++ names l.entry) (names (valueF r)) with
+    | none => none
+    | some new =>
+      let keyFs := l.rowKey.filterMap (fun k => (lookupF l.row k).map (fun ty => (k, ty)))
+      (concat (keyFs ++ valueF l) (renameFields (valueF r) new)).map fun row => { l with row := row }
+
+def unionCols : MType → MType → Option MType := unionColsWith concatPy
+def unionColsStrict : MType → MType → Option MType := unionColsWith concatStrict
 
 /-- `mt.rows()`: `rowsTableType` -/
 def rowsTable (m : MType) : TType := ⟨m.globals, m.row, m.rowKey⟩
